@@ -27,7 +27,7 @@ fn close(a: f64, b: f64) -> bool { (a - b).abs() <= 1e-6 * a.abs().max(b.abs()).
 // C09
 
 const AGG9: [&str; 9] = ["sum(income)", "avg(age)", "count(age)", "count(*)", "sum(age)", "avg(income)", "variance(income)", "stddev(age)", "count(DISTINCT city)"];
-const OAGG9: [&str; 8] = ["sum(amount)", "avg(qty)", "count(qty)", "count(*)", "avg(amount)", "sum(bal)", "avg(bal)", "sum(bal)"];
+const OAGG9: [&str; 9] = ["sum(amount)", "avg(qty)", "count(qty)", "count(*)", "avg(amount)", "sum(bal)", "avg(bal)", "sum(bal)", "sum(eps)"];
 
 pub fn gen_c09(rng: &mut Rng, _k: usize, _tier: &str) -> J {
     let from_orders = rng.chance(1, 3);
@@ -264,7 +264,9 @@ pub fn eval_c01(case: &J) -> Outcome {
                 let dist = d2.sqrt();
                 if dist > 0.0 { out.tag("unit-contributes"); }
                 if dist > c * 0.999 && *c > 0.0 { clipped_active = true; }
-                if dist > c * (1.0 + 1e-6) + 1e-6 {
+                // tolerance: relative to the bound and to the magnitude of the released cells (a column declared in [0, 1e-18] has C ≈ 1e-18)
+                let mag = m0.values().chain(m1.values()).filter_map(|r| r[ci].as_f64()).fold(0.0f64, |a, x| a.max(x.abs()));
+                if dist > c * (1.0 + 1e-6) + 1e-9 * mag {
                     out.fail("C01/exec/sensitivity-exceeds-clip", format!("{sql} with {:?}: removing privacy unit {uid} changes the noised column `{cname}` by {dist} in L2 norm over the released groups, more than the clipping bound C = {c} the noise was scaled by (D: {:?}, D': {:?})", p, r0.1.iter().take(4).collect::<Vec<_>>(), r1.1.iter().take(4).collect::<Vec<_>>()));
                     // the same run read as C03: the event records a multiplier m for this sum, the noise actually applied relative to what one
                     // unit can move is σ / dist — a larger recorded multiplier under-reports the privacy loss
@@ -491,7 +493,7 @@ fn eval_c04_weighted(case: &J) -> Outcome {
     let mut units: BTreeMap<i64, std::collections::BTreeSet<i64>> = BTreeMap::new();
     for r in &rows { if let (Cell::Int(u), Cell::Int(k)) = (&r[0], &r[2]) { units.entry(*k).or_default().insert(*u); } }
     let Some((_, tau, _)) = facts.taus.first().cloned() else {
-        for r in &res.1 { if let Some(k) = r[0].as_f64() { if units.get(&(k as i64)).map_or(0, |s| s.len()) == 1 { out.fail("C02/exec/private-key-released-without-threshold", format!("{sql} (weighted privacy unit): no threshold, key {k} held by one unit is released")); break; } } }
+        for r in &res.1 { if let Some(k) = r[0].as_f64() { if units.get(&(k as i64)).map_or(0, |s| s.len()) == 1 { out.fail("C02/exec/private-key-released-without-threshold", format!("{sql} (weighted privacy unit): no threshold, key {k} held by one unit is released")); out.fail("C04/exec/private-key-released-without-threshold", format!("{sql} (weighted privacy unit): no threshold, key {k} held by one unit is released")); break; } } }
         return out; };
     if !res.1.is_empty() { out.tag("keys-released"); }
     for r in &res.1 {
@@ -523,7 +525,7 @@ pub fn gen_c04(rng: &mut Rng, _k: usize, _tier: &str) -> J {
         _ => ("SELECT users.age AS k0, sum(orders.amount) AS c FROM users JOIN orders ON users.id = orders.user_id GROUP BY users.age".to_string(), vec!["age"]),
     };
     json!({"sql": sql, "keys": keycols, "data_seed": rng.next() % 100000, "n_users": *rng.pick(&[5i64, 30, 200, 600]), "max_orders": rng.range(1, 4),
-           "eps": *rng.pick(&[0.5, 1.0, 4.0, 50.0]), "delta": *rng.pick(&[1e-2, 1e-4, 1e-7, 0.3]), "share": *rng.pick(&[0.5, 0.2, 0.9]), "groups": *rng.pick(&[1u64, 2, 5])})
+           "eps": *rng.pick(&[0.5, 1.0, 4.0, 50.0]), "delta": *rng.pick(&[1e-2, 1e-4, 1e-7, 0.3, 1e-17, 1e-300]), "share": *rng.pick(&[0.5, 0.2, 0.9]), "groups": *rng.pick(&[1u64, 2, 5])})
 }
 
 pub fn eval_c04(case: &J) -> Outcome {
@@ -570,7 +572,7 @@ pub fn eval_c04(case: &J) -> Outcome {
         for r in &res.1 {
             let kv = r[nkeys - 1].key();
             if units.get(&kv).map_or(0, |s| s.len()) == 1 {
-                out.fail("C02/exec/private-key-released-without-threshold", format!("{sql} with {:?}: the rewritten query has no threshold on the number of privacy units per key, and releases the key {kv} which a single privacy unit holds (released keys depend on the protected rows without any noise)", p)); break;
+                out.fail("C02/exec/private-key-released-without-threshold", format!("{sql} with {:?}: the rewritten query has no threshold on the number of privacy units per key, and releases the key {kv} which a single privacy unit holds (released keys depend on the protected rows without any noise)", p)); out.fail("C04/exec/private-key-released-without-threshold", format!("{sql} with {:?}: the rewritten query has no threshold on the number of privacy units per key, and releases the key {kv} which a single privacy unit holds (released keys depend on the protected rows without any noise)", p)); break;
             }
         }
         return out;
